@@ -110,6 +110,13 @@ def stochast_unit(spec, exact, K, witness=False):
         c.reachable("two runs completed")
         c.prove(same(A, B, c), "same seed (same global stream) => identical states, counts and times")
         c.prove(len(A[0]) == 2, "one path per iteration")
+        # every iteration is a fresh walk of the same model: it starts at the initial state and time (nothing carried
+        # over from the previous iteration or the previous call)
+        x0_list = [v for v in x0]
+        for run_ in (A, B):
+            for k_ in range(len(run_[0])):
+                c.prove(all_close(list(run_[0][k_][0]), x0_list, c) and close(run_[2][k_][0], t0, c),
+                        "iteration %d starts at the initial state and time" % k_)
         if witness:
             C_ = run("h")
             fa, fc = flat(A[2]), flat(C_[2])
